@@ -108,6 +108,45 @@ def shard(shard_i, nshards, payload):
             if ok and len(res.samples) < 2 and i < 4 * nshards:
                 res.sample({"canonical": spell.canonical(toks)[:200],
                             "respelled": spell.respell(toks, rng, **DIMS[-1][1])[:300]})
+        # valid and single-fault units (the analyzer's verdict means something there): identifiers re-cased per occurrence
+        import vgen
+        for i in range(shard_i, payload["n_units"], nshards):
+            rng = core.rng_for(seed, "c08v", i)
+            decls = vgen.VGen(rng, avoid=payload["avoid_v"]).unit()
+            planted = None
+            if i % 2:
+                faults = [f for f in vgen.plant_all(decls) if not f[1].endswith("rhs-enum-target")]
+                if faults:
+                    planted, _, decls, _ = rng.choice(faults)
+            canon = vgen.render_unit(decls)
+            o0 = probe.run({"op": "analyze", "files": [["c08.st", canon]]})
+            res.evaluations += 1
+            if "ok" not in o0 or not o0["parse"][0]["ok"] or any(d["code"] == "P9999" for d in o0.get("diags", [])):
+                continue
+            codes0 = sorted(d["code"] for d in o0["diags"])
+            good = True
+            for k in range(3):
+                text = vgen.recase_identifiers(canon, rng, 0.6)
+                o1 = probe.run({"op": "analyze", "files": [["c08.st", text]]})
+                res.evaluations += 1
+                res.count("dim:idcase-unit")
+                case = {"canonical": canon, "respelled": text, "dimension": "idcase-unit", "planted": planted}
+                if "ok" not in o1:
+                    res.violation("crash", "idcase-unit:crash", o1.get("panic"), case)
+                    good = False
+                elif not o1["parse"][0]["ok"]:
+                    res.violation("rejected-respelling", "idcase-unit:reject", o1["parse"][0]["diag"]["primary"]["msg"][:160], case)
+                    good = False
+                else:
+                    codes1 = sorted(d["code"] for d in o1["diags"])
+                    if (not codes0) != (not codes1):
+                        res.violation("different-verdict", "idcase-unit:verdict", {"canonical": codes0, "respelled": codes1}, case)
+                        good = False
+                    elif set(codes0) != set(codes1):
+                        res.violation("different-codes", "idcase-unit:codes", {"canonical": codes0, "respelled": codes1}, case)
+                        good = False
+            if good:
+                res.distinct.add(core.key_of("unit", i))
         # keyword sweep: every keyword of the token alphabet in a context where it is valid is covered by the
         # generator's atoms; END_IF chains get their own small exhaustive family
         for depth in range(1, 5):
@@ -151,8 +190,9 @@ def shard(shard_i, nshards, payload):
 def run(tier, seed):
     core.build_probe()
     bad = sorted(known_bad_atoms("C01") | known_bad_atoms(PROP))
+    avoid_v = sorted({a for f in core.load_findings("C02") if f.get("status") == "open" for a in f.get("atoms", [])})
     payload = {"seed": seed, "bad_atoms": bad, "n": 1500 if tier == "quick" else 40000,
-               "rounds": 1 if tier == "quick" else 2}
+               "rounds": 1 if tier == "quick" else 2, "avoid_v": avoid_v, "n_units": 300 if tier == "quick" else 6000}
     parts = core.run_sharded(shard, payload)
     parts.append(witnesses().to_dict())
     res = core.Result.merge(parts)
